@@ -65,6 +65,10 @@ impl Rng {
     pub fn pick<'a, T>(&mut self, xs: &'a [T]) -> &'a T {
         &xs[self.below(xs.len())]
     }
+    /// pick from a slice of string slices
+    pub fn s<'a>(&mut self, xs: &[&'a str]) -> &'a str {
+        xs[self.below(xs.len())]
+    }
     pub fn pick_opt<'a, T>(&mut self, xs: &'a [T]) -> Option<&'a T> {
         if xs.is_empty() { None } else { Some(&xs[self.below(xs.len())]) }
     }
